@@ -36,6 +36,11 @@ def solver_cfg(rng, scalar, tier_hard=False):
         cfg["gtol"] = hx(rng.choice([0.0, 1e-2, 0.5]), scalar)
     if rng.random() < 0.15:
         cfg["scale_diag"] = False
+    if rng.random() < 0.12:
+        # tolerances that cannot be met: the optimizer stops with NoImprovementPossible (an unsuccessful termination)
+        z = hx(0.0, scalar)
+        cfg.update({"ftol": z, "xtol": z, "gtol": z})
+        cfg.pop("patience", None)
     return cfg
 
 
